@@ -180,6 +180,12 @@ func (c *Crew) SetMachine(ctx context.Context, mid string, src *crew.SpecSource,
 		c.Machines[mid] = m
 	}
 
+	if ch, pending := c.changed[mid]; pending {
+		// The machine exists (again): A deletion that hasn't
+		// been reported yet doesn't stand anymore.
+		ch.Deleted = false
+	}
+
 	if src != nil {
 		c.change(mid).SpecSrc = src
 	}
